@@ -196,11 +196,16 @@ class CoercerDeserialize:
     def ensures(self, c):
         s, d = c.self, c.data
         cf, k, m = c.attr0(s, "coercer"), c.attr0(s, "cls"), c.attr0(s, "method")
+        wrapped = isinst(d, "Discriminated")
+        inner = c.attr0(d, "data")
         ok = COERCE_OK(cf, k, d)
         v = COERCED(cf, k, d)
-        out = {"C14: the coerced value is still checked by the wrapped node (a wrong-typed result of a custom coercer is rejected)": c.returned == z3.And(ok, T.acc(m, v))}
+        out = {
+            "C14: the coerced value is still checked by the wrapped node (a wrong-typed result of a custom coercer is rejected)": z3.Implies(z3.Not(wrapped), c.returned == z3.And(ok, T.acc(m, v))),
+            "C13/C14: for the internal wrapper of a discriminated union the coercer is applied to the wrapped datum": z3.Implies(z3.And(wrapped, c.returned), COERCE_OK(cf, k, inner)),
+        }
         if c.is_return:
-            out["image"] = c.result == T.img(m, v)
+            out["image"] = z3.Implies(z3.Not(wrapped), c.result == T.img(m, v))
         if c.is_raise:
-            out["error"] = c.exc == z3.If(ok, T.err(m, v), COERCE_ERR(cf, k, d))
+            out["error"] = z3.Implies(z3.Not(wrapped), c.exc == z3.If(ok, T.err(m, v), COERCE_ERR(cf, k, d)))
         return out
